@@ -27,6 +27,8 @@ class Ctx:
     def __init__(self, pid, tier, seed, shard, nshards, budget_s):
         self.pid, self.tier, self.seed, self.shard, self.nshards = pid, tier, seed, shard, nshards
         self.budget_s = budget_s
+        self.special = False     # True for the extra last shard of modules that declare SPECIAL_SHARD
+        self.nreg = nshards      # number of regular shards (enumerations are sliced over these)
         self.rng = random.Random(derive_seed(seed, pid, shard))
         import numpy as np
         self.np_rng = np.random.default_rng(derive_seed(seed, pid, shard, "np") % (2 ** 63))
@@ -58,7 +60,7 @@ class Ctx:
 
     def mine(self, i):
         """Slice an enumeration over the shards."""
-        return i % self.nshards == self.shard
+        return (not self.special) and i % self.nreg == self.shard
 
     def cls(self, name, n=1):
         self.classes[name] += n
@@ -124,6 +126,9 @@ def worker_main(pid, tier, seed, shard, nshards, budget_s, out):
     import_dsw()
     mod = load_prop(pid)
     ctx = Ctx(pid, tier, seed, shard, nshards, budget_s)
+    if getattr(mod, "SPECIAL_SHARD", False):
+        ctx.nreg = nshards - 1
+        ctx.special = shard == nshards - 1
     try:
         if hasattr(mod, "setup"):
             mod.setup(ctx)
